@@ -32,6 +32,10 @@ type CheckSpec struct {
 	Mk   func() core.ZodCheck
 	Meta *core.GlobalMeta // content written to the registry by the check's OnAttach (Describe/Meta checks only)
 	Desc bool             // built by Describe (assigns the description even when empty) rather than Meta
+	// MkWith (Meta checks): the check together with the very GlobalMeta value handed to gozod.Meta — the check keeps its
+	// Examples slice (and the registry entry, and the document, get the same backing array), so the content a check
+	// writes is read off this value when the step is coded, not off a copy made beforehand.
+	MkWith func() (core.ZodCheck, core.GlobalMeta)
 }
 
 // MetaContent is what a registry-writing check writes: Meta(m) or Describe(m.Description).
@@ -109,7 +113,8 @@ func staticChecks() []CheckSpec {
 	for i := range metaVariants() {
 		i := i
 		m := metaVariants()[i]
-		out = append(out, CheckSpec{Name: fmt.Sprintf("Meta/%d", i), Mk: func() core.ZodCheck { return gozod.Meta(metaVariants()[i]) }, Meta: &m})
+		out = append(out, CheckSpec{Name: fmt.Sprintf("Meta/%d", i), Mk: func() core.ZodCheck { return gozod.Meta(metaVariants()[i]) }, Meta: &m,
+			MkWith: func() (core.ZodCheck, core.GlobalMeta) { v := metaVariants()[i]; return gozod.Meta(v), v }})
 	}
 	noop := func(*core.ParsePayload) {}
 	out = append(out,
@@ -286,6 +291,13 @@ type metaEntry struct {
 // MakeCheck builds the check of catalogue entry `variant` and remembers its registry content.
 func MakeCheck(variant int) core.ZodCheck {
 	sp := checkFor(variant)
+	if sp.MkWith != nil {
+		c, m := sp.MkWith()
+		if c != nil {
+			metaOfCheck.Store(ifaceData(c), metaEntry{c, MetaContent{M: m, Describe: sp.Desc}})
+		}
+		return c
+	}
 	c := sp.Mk()
 	if c != nil && sp.Meta != nil {
 		// the check value is kept with its content: its address is the key and must never be reused for another check
